@@ -26,7 +26,8 @@ RULE = ("(termination cause, life point, role, schedule) cases in the controlled
 CLIENT = {
     "connecting": ["refused"],
     "wait-cea": ["peer-fin", "peer-rst", "non-cea"],
-    "open-idle": ["local-close", "peer-dpr", "peer-fin", "peer-rst"],
+    "open-idle": ["local-close", "peer-dpr", "peer-fin", "peer-rst", "peer-timeout", "host-unreachable"],
+    "open-partial-inbound": ["peer-fin", "peer-rst", "peer-timeout"],      # the peer dies in the middle of a message
     "open-inbound-queued": ["local-close", "peer-dpr", "peer-fin", "peer-rst"],
     "open-outbound-queued": ["local-close", "peer-dpr", "peer-fin", "peer-rst"],
     "open-consumer-blocked": ["local-close", "peer-dpr", "peer-fin", "peer-rst"],
@@ -83,10 +84,27 @@ def run_one(case):
                 w.call("closer", lambda: w.d.close())
                 w.run(lambda: any(m["cmd"] == 282 for m in w._safe_sent()), 5.0)
         sock = w.sock
+        early = []
+        if role == "client":
+            left = [w.state() != "Closed"]
+
+            def hook(cur, kind):
+                st_now = w.state()
+                if st_now != "Closed":
+                    left[0] = True
+                elif left[0] and not early and sock is not None and not sock.closed:
+                    # the state machine has been out of Closed and reports Closed again while the connection socket is open
+                    early.append((kind, cur.name, [sock.fd]))
+            w.sched.step_hook = hook
         # ---------------- generated part: the cause, under the generated schedule prefix
         w.sched.choices = list(case["sched"])
         w.sched.choice_i = 0
         conc.apply_holds(w, case.get("holds"))
+        if point == "open-partial-inbound":
+            # the connection ends in the middle of an inbound message (the receive worker has already taken the first half)
+            whole = app_request(3100, 4100, dest_realm=LOCAL["realm"], payload=bytes(40 * case["n_queued"]))
+            w.feed(whole[:len(whole) // 2])
+            w.run(lambda: False, 0.3)
         if point == "open-inbound-queued":
             for i in range(case["n_queued"]):
                 w.feed(app_request(3000 + i, 4000 + i, dest_realm=LOCAL["realm"]))
@@ -104,6 +122,12 @@ def run_one(case):
             w.net.peer_fin(sock)
         elif cause == "peer-rst":
             w.net.peer_rst(sock)
+        elif cause == "peer-timeout":
+            import errno
+            w.net.peer_vanishes(sock, errno.ETIMEDOUT)
+        elif cause == "host-unreachable":
+            import errno
+            w.net.peer_vanishes(sock, errno.EHOSTUNREACH)
         elif cause == "non-cea":
             w.feed(app_request(1, 2, dest_realm=LOCAL["realm"]))
         answered_dpr = [False]
@@ -124,6 +148,10 @@ def run_one(case):
         info.update(result=r, steps=w.sched.steps, switches=w.sched.switches, line_switches=w.sched.line_switches)
         live = [(t.name, t.blocked_on or t.state) for t in w.sched.live_threads()]
         tag = f"{point}/{cause}"
+        w.sched.step_hook = None
+        if early:
+            vs.append(V("Closed is reported only once the sockets have been released", f"closed-reported-before-release/{role}",
+                        f"at a '{early[0][0]}' point of {early[0][1]}: state Closed while fds {early[0][2]} were still open"))
         if w.state() != "Closed":
             vs.append(V("the node reaches Closed", f"not-closed/{tag}/{role}", f"state {w.state()} after 30 virtual s; live threads {live}"))
         else:
@@ -186,7 +214,7 @@ def main(ctx):
     for path, rec in common.load_replays(PID):
         col.record(rec["case"], run_case(rec["case"]), nontrivial=True, classes=["replay"])
     ctx.required_classes = ["prefix-with-switch", "role=client", "role=server"] + ["point=" + p for p in set(CLIENT) | set(SERVER)] + \
-                           ["cause=" + c for c in ("local-close", "peer-dpr", "peer-fin", "peer-rst", "refused")]
+                           ["cause=" + c for c in ("local-close", "peer-dpr", "peer-fin", "peer-rst", "refused", "peer-timeout", "host-unreachable")]
     ctx.assumptions = ["controlled world; 'terminates' is judged within 30 virtual seconds of the cause under fair completion",
                        "a conformant peer answers the node's DPR with a DPA for cause=local-close; for life point 'closing' the peer "
                        "disconnects instead of answering"]
